@@ -54,6 +54,7 @@ func init() {
 		if m := c.L.Call("parsego", hx(raw)); m != out {
 			c.R.Mismatch("parsego", hin, out, m)
 		}
+		c.genCheck("parse", hin, out, hx(raw))
 		if strings.HasPrefix(out, "panic") {
 			c.R.Violation("parse.total", hin, out, "nil or an event", "ParseEvent panicked")
 		}
@@ -117,8 +118,12 @@ func init() {
 				if !ok || got != v {
 					c.R.Violation("tagapi.get_set", hin, q(got), q(v), "Tags.Get does not return the value given to Tags.Set for key "+q(k))
 				}
-				if m := c.L.Call("tagget", encTags(t), hx(k)); m != hx(got) && !(m == "-" && !ok) {
+				m := c.L.Call("tagget", encTags(t), hx(k))
+				if m != hx(got) && !(m == "-" && !ok) {
 					c.R.Mismatch("tagget", hin, hx(got), m)
+				}
+				if ok {
+					c.genCheck("tagget", hin, hx(got), encTags(t), hx(k))
 				}
 			}
 			if m := c.L.Call("tagenc", hx(v)); m != hx(girc.VerifTagEncode(v)) {
@@ -130,9 +135,11 @@ func init() {
 			if m := c.L.Call("validtag", hx(k)); m != bl(girc.VerifValidTag(k)) {
 				c.R.Mismatch("validtag", hin, bl(girc.VerifValidTag(k)), m)
 			}
+			c.genCheck("validtag", hin, bl(girc.VerifValidTag(k)), hx(k))
 			if m := c.L.Call("validtagvalue", hx(v)); m != bl(girc.VerifValidTagValue(v)) {
 				c.R.Mismatch("validtagvalue", hin, bl(girc.VerifValidTagValue(v)), m)
 			}
+			c.genCheck("validtagvalue", hin, bl(girc.VerifValidTagValue(v)), hx(v))
 		}
 		if m := c.L.Call("tagsbytes", encTags(t)); m != hx(string(t.Bytes())) {
 			c.R.Mismatch("tagsbytes", hin, hx(string(t.Bytes())), m)
@@ -223,6 +230,33 @@ func runC01(c *Ctx) {
 				c.run("roundtrip", evIn(&girc.Event{Command: "PRIVMSG", Params: []string{"#c", "hi"}, Tags: t}))
 			}
 			r.Count(fmt.Sprintf("limit%d%s", total, second), true, "tag-limit")
+		}
+		// the same boundary reached by RE-setting a key that is already present (valueless, with a value, or the only
+		// tag): whatever Set accepted must survive serialisation
+		for _, m := range []int{1, 3} {
+			histories := [][][2]string{
+				{{"a", strings.Repeat("x", total-5-m)}, {"z", ""}, {"z", strings.Repeat("y", m)}},
+				{{"a", strings.Repeat("x", total-5-m)}, {"z", "q"}, {"z", strings.Repeat("y", m)}},
+				{{"a", strings.Repeat("x", total-5-m)}, {"z", strings.Repeat("y", m)}, {"a", strings.Repeat("w", total-5-m)}},
+				{{"a", ""}, {"a", strings.Repeat("x", total-2)}},
+				{{"a", "b"}, {"z", ""}, {"a", strings.Repeat("x", total-4)}},
+			}
+			for hi, h := range histories {
+				in := map[string]string{"n": fmt.Sprint(len(h))}
+				t := girc.Tags{}
+				accepted := true
+				for j, kv := range h {
+					in[fmt.Sprintf("k%d", j)], in[fmt.Sprintf("v%d", j)] = kv[0], kv[1]
+					if t.Set(kv[0], kv[1]) != nil {
+						accepted = false
+					}
+				}
+				c.run("tagapi", in)
+				if accepted {
+					c.run("roundtrip", evIn(&girc.Event{Command: "PRIVMSG", Params: []string{"#c", "hi"}, Tags: t}))
+				}
+				r.Count(fmt.Sprintf("relimit%d.%d.%d", total, m, hi), true, "tag-limit-reset")
+			}
 		}
 	}
 }
